@@ -6,7 +6,7 @@ from concurrent.futures import ThreadPoolExecutor
 
 
 def parse(text):
-    d = {'family': '', 'hdr': [], 'recw': 1, 'prog': [], 'tape': []}
+    d = {'family': '', 'hdr': [], 'recw': 1, 'prog': [], 'tape': [], 'dfs': []}
     for line in text.splitlines():
         w = line.split()
         if not w or w[0].startswith('#'):
@@ -15,18 +15,21 @@ def parse(text):
             d['family'] = w[1]
         elif w[0] == 'recw':
             d['recw'] = int(w[1])
-        elif w[0] in ('hdr', 'prog', 'tape'):
+        elif w[0] in ('hdr', 'prog', 'tape', 'dfs'):
             d[w[0]] = [int(x) for x in w[1:]]
     return d
 
 
 def fmt(d):
     return (f'family {d["family"]}\nhdr {" ".join(map(str, d["hdr"]))}\nrecw {d["recw"]}\n'
-            f'prog {" ".join(map(str, d["prog"]))}\ntape {" ".join(map(str, d["tape"]))}\n')
+            f'prog {" ".join(map(str, d["prog"]))}\ntape {" ".join(map(str, d["tape"]))}\n' +
+            (f'dfs {" ".join(map(str, d["dfs"]))}\n' if d['dfs'] else ''))
 
 
 def shrink(exe, text, env, expect, workdir, budget=400):
     d = parse(text)
+    if d['dfs']:
+        return fmt(d)  # schedule given as DFS decisions: program and schedule are not independently shrinkable
     counter = [0]
 
     def fails(cand):
